@@ -287,5 +287,192 @@ theorem CInv.seCore_ccw {s : St} (hc : CInv s) (e0 : Nat) (p : Pt) (d : Nat) (b_
     intro hfx
     grind (splits := 40)
 
+set_option maxHeartbeats 4000000 in
+/-- `split_edge` keeps the anchor of every inner face on the face -/
+theorem LInv.seCore_ft {s : St} (hs : LInv s) (hft3 : s.FaceTriples) (e0 : Nat) (p : Pt) (d : Nat) (b_0 : e0 < s.nE)
+    (hfe0 : s.fc e0 ≠ 0) (hft0 : s.fc (s.rv e0) ≠ 0) :
+    (St.seCore s e0 (s.nxt e0) (s.prv e0) (s.rv e0) (s.nxt (s.rv e0)) (s.prv (s.rv e0))
+      (s.org e0) (s.org (s.prv (s.rv e0))) (s.org (s.rv e0)) (s.org (s.prv e0)) (s.fc e0) (s.fc (s.rv e0)) p d).FaceTriples := by
+  have ev0 := hs.even
+  have b_3 := hs.rv_lt b_0
+  obtain ⟨b_1, b_2, a3, a4, a5, a6, a7, a8, a9, a10, a11⟩ := hs.tri b_0 hfe0
+  obtain ⟨b_4, b_5, c3, c4, c5, c6, c7, c8, c9, c10, c11⟩ := hs.tri b_3 hft0
+  obtain ⟨x1, x2⟩ := hs.tri_cross b_0 hfe0
+  have rr := hs.rv_rv b_0
+  have rne := hs.rv_ne b_0
+  have E0 := hs.edge e0 b_0
+  have E1 := hs.edge _ b_1
+  have E2 := hs.edge _ b_2
+  have E3 := hs.edge _ b_3
+  have E4 := hs.edge _ b_4
+  have E5 := hs.edge _ b_5
+  have r1 := hs.rv_rv b_1
+  have r2 := hs.rv_rv b_2
+  have r4 := hs.rv_rv b_4
+  have r5 := hs.rv_rv b_5
+  have l1 := hs.rv_lt b_1
+  have l2 := hs.rv_lt b_2
+  have l4 := hs.rv_lt b_4
+  have l5 := hs.rv_lt b_5
+  generalize hen : s.nxt e0 = en at *
+  generalize hep : s.prv e0 = ep at *
+  generalize ht : s.rv e0 = t0 at *
+  generalize htn : s.nxt t0 = tn at *
+  generalize htp : s.prv t0 = tp at *
+  have dd : e0 ≠ en ∧ e0 ≠ ep ∧ e0 ≠ t0 ∧ e0 ≠ tn ∧ e0 ≠ tp ∧ en ≠ ep ∧ en ≠ t0 ∧ en ≠ tn ∧ en ≠ tp ∧
+         ep ≠ t0 ∧ ep ≠ tn ∧ ep ≠ tp ∧ t0 ≠ tn ∧ t0 ≠ tp ∧ tn ≠ tp := by
+    refine ⟨a9, a10, Ne.symm rne, ?_, ?_, a11, Ne.symm x1, ?_, ?_, Ne.symm x2, ?_, ?_, c9, c10, c11⟩
+    all_goals grind
+  obtain ⟨d_0_1, d_0_2, d_0_3, d_0_4, d_0_5, d_1_2, d_1_3, d_1_4, d_1_5, d_2_3, d_2_4, d_2_5, d_3_4, d_3_5, d_4_5⟩ := dd
+  have fb1 : s.fc e0 < s.nF := E0.2.2.2.1
+  have fb2 : s.fc t0 < s.nF := E3.2.2.2.1
+  have n_0 : ∀ k, s.nE + k ≠ e0 := by intro k; omega
+  have m_0 : s.nE ≠ e0 := by omega
+  have u_0 : ∀ k, e0 < s.nE + k := by intro k; omega
+  have n_1 : ∀ k, s.nE + k ≠ en := by intro k; omega
+  have m_1 : s.nE ≠ en := by omega
+  have u_1 : ∀ k, en < s.nE + k := by intro k; omega
+  have n_2 : ∀ k, s.nE + k ≠ ep := by intro k; omega
+  have m_2 : s.nE ≠ ep := by omega
+  have u_2 : ∀ k, ep < s.nE + k := by intro k; omega
+  have n_3 : ∀ k, s.nE + k ≠ t0 := by intro k; omega
+  have m_3 : s.nE ≠ t0 := by omega
+  have u_3 : ∀ k, t0 < s.nE + k := by intro k; omega
+  have n_4 : ∀ k, s.nE + k ≠ tn := by intro k; omega
+  have m_4 : s.nE ≠ tn := by omega
+  have u_4 : ∀ k, tn < s.nE + k := by intro k; omega
+  have n_5 : ∀ k, s.nE + k ≠ tp := by intro k; omega
+  have m_5 : s.nE ≠ tp := by omega
+  have u_5 : ∀ k, tp < s.nE + k := by intro k; omega
+  have szE : (s.seCore e0 en ep t0 tn tp (s.org e0) (s.org tp) (s.org t0) (s.org ep) (s.fc e0) (s.fc t0) p d).nE = s.nE + 6 := by unfold St.seCore; evw [b_0, b_1, b_2, b_3, b_4, b_5, d_0_1, d_0_1.symm, d_0_2, d_0_2.symm, d_0_3, d_0_3.symm, d_0_4, d_0_4.symm, d_0_5, d_0_5.symm, d_1_2, d_1_2.symm, d_1_3, d_1_3.symm, d_1_4, d_1_4.symm, d_1_5, d_1_5.symm, d_2_3, d_2_3.symm, d_2_4, d_2_4.symm, d_2_5, d_2_5.symm, d_3_4, d_3_4.symm, d_3_5, d_3_5.symm, d_4_5, d_4_5.symm, n_0, (n_0 _).symm, m_0, m_0.symm, u_0, n_1, (n_1 _).symm, m_1, m_1.symm, u_1, n_2, (n_2 _).symm, m_2, m_2.symm, u_2, n_3, (n_3 _).symm, m_3, m_3.symm, u_3, n_4, (n_4 _).symm, m_4, m_4.symm, u_4, n_5, (n_5 _).symm, m_5, m_5.symm, u_5]
+  have szF : (s.seCore e0 en ep t0 tn tp (s.org e0) (s.org tp) (s.org t0) (s.org ep) (s.fc e0) (s.fc t0) p d).nF = s.nF + 2 := by unfold St.seCore; evw [b_0, b_1, b_2, b_3, b_4, b_5, d_0_1, d_0_1.symm, d_0_2, d_0_2.symm, d_0_3, d_0_3.symm, d_0_4, d_0_4.symm, d_0_5, d_0_5.symm, d_1_2, d_1_2.symm, d_1_3, d_1_3.symm, d_1_4, d_1_4.symm, d_1_5, d_1_5.symm, d_2_3, d_2_3.symm, d_2_4, d_2_4.symm, d_2_5, d_2_5.symm, d_3_4, d_3_4.symm, d_3_5, d_3_5.symm, d_4_5, d_4_5.symm, n_0, (n_0 _).symm, m_0, m_0.symm, u_0, n_1, (n_1 _).symm, m_1, m_1.symm, u_1, n_2, (n_2 _).symm, m_2, m_2.symm, u_2, n_3, (n_3 _).symm, m_3, m_3.symm, u_3, n_4, (n_4 _).symm, m_4, m_4.symm, u_4, n_5, (n_5 _).symm, m_5, m_5.symm, u_5]
+  apply hs.faceTriples_of_local hft3 [e0, en, ep, t0, tn, tp] [e0, en, ep, t0, tn, tp] [e0, en, ep, t0, tn, tp] [e0, en, ep, t0, tn, tp] [s.fc e0, s.fc t0]
+  · omega
+  · intro x hx
+    simp only [List.mem_cons, List.not_mem_nil, or_false] at hx ⊢
+    rcases hx with h | h | h | h | h | h <;> subst h <;> simp
+  · intro x hx
+    simp only [List.mem_cons, List.not_mem_nil, or_false] at hx ⊢
+    rcases hx with h | h | h | h | h | h <;> subst h <;> simp
+  · intro x hx
+    simp only [List.mem_cons, List.not_mem_nil, or_false] at hx ⊢
+    rcases hx with h | h | h | h | h | h <;> subst h <;> simp
+  · intro i hi hT
+    simp only [List.mem_cons, List.not_mem_nil, or_false, not_or] at hT
+    have hin : ∀ k, i ≠ s.nE + k := by intro k; omega
+    have hik : ∀ k, i < s.nE + k := by intro k; omega
+    have hi0 : i ≠ s.nE := by omega
+    unfold St.seCore
+    evw [b_0, b_1, b_2, b_3, b_4, b_5, d_0_1, d_0_1.symm, d_0_2, d_0_2.symm, d_0_3, d_0_3.symm, d_0_4, d_0_4.symm, d_0_5, d_0_5.symm, d_1_2, d_1_2.symm, d_1_3, d_1_3.symm, d_1_4, d_1_4.symm, d_1_5, d_1_5.symm, d_2_3, d_2_3.symm, d_2_4, d_2_4.symm, d_2_5, d_2_5.symm, d_3_4, d_3_4.symm, d_3_5, d_3_5.symm, d_4_5, d_4_5.symm, n_0, (n_0 _).symm, m_0, m_0.symm, u_0, n_1, (n_1 _).symm, m_1, m_1.symm, u_1, n_2, (n_2 _).symm, m_2, m_2.symm, u_2, n_3, (n_3 _).symm, m_3, m_3.symm, u_3, n_4, (n_4 _).symm, m_4, m_4.symm, u_4, n_5, (n_5 _).symm, m_5, m_5.symm, u_5, hT, hin, hik, hi0, hi]
+  · intro i hi hT
+    simp only [List.mem_cons, List.not_mem_nil, or_false, not_or] at hT
+    have hin : ∀ k, i ≠ s.nE + k := by intro k; omega
+    have hik : ∀ k, i < s.nE + k := by intro k; omega
+    have hi0 : i ≠ s.nE := by omega
+    unfold St.seCore
+    evw [b_0, b_1, b_2, b_3, b_4, b_5, d_0_1, d_0_1.symm, d_0_2, d_0_2.symm, d_0_3, d_0_3.symm, d_0_4, d_0_4.symm, d_0_5, d_0_5.symm, d_1_2, d_1_2.symm, d_1_3, d_1_3.symm, d_1_4, d_1_4.symm, d_1_5, d_1_5.symm, d_2_3, d_2_3.symm, d_2_4, d_2_4.symm, d_2_5, d_2_5.symm, d_3_4, d_3_4.symm, d_3_5, d_3_5.symm, d_4_5, d_4_5.symm, n_0, (n_0 _).symm, m_0, m_0.symm, u_0, n_1, (n_1 _).symm, m_1, m_1.symm, u_1, n_2, (n_2 _).symm, m_2, m_2.symm, u_2, n_3, (n_3 _).symm, m_3, m_3.symm, u_3, n_4, (n_4 _).symm, m_4, m_4.symm, u_4, n_5, (n_5 _).symm, m_5, m_5.symm, u_5, hT, hin, hik, hi0, hi]
+  · intro i hi hT
+    simp only [List.mem_cons, List.not_mem_nil, or_false, not_or] at hT
+    have hin : ∀ k, i ≠ s.nE + k := by intro k; omega
+    have hik : ∀ k, i < s.nE + k := by intro k; omega
+    have hi0 : i ≠ s.nE := by omega
+    unfold St.seCore
+    evw [b_0, b_1, b_2, b_3, b_4, b_5, d_0_1, d_0_1.symm, d_0_2, d_0_2.symm, d_0_3, d_0_3.symm, d_0_4, d_0_4.symm, d_0_5, d_0_5.symm, d_1_2, d_1_2.symm, d_1_3, d_1_3.symm, d_1_4, d_1_4.symm, d_1_5, d_1_5.symm, d_2_3, d_2_3.symm, d_2_4, d_2_4.symm, d_2_5, d_2_5.symm, d_3_4, d_3_4.symm, d_3_5, d_3_5.symm, d_4_5, d_4_5.symm, n_0, (n_0 _).symm, m_0, m_0.symm, u_0, n_1, (n_1 _).symm, m_1, m_1.symm, u_1, n_2, (n_2 _).symm, m_2, m_2.symm, u_2, n_3, (n_3 _).symm, m_3, m_3.symm, u_3, n_4, (n_4 _).symm, m_4, m_4.symm, u_4, n_5, (n_5 _).symm, m_5, m_5.symm, u_5, hT, hin, hik, hi0, hi]
+  · intro f h0 hf hF
+    simp only [List.mem_cons, List.not_mem_nil, or_false, not_or] at hF
+    have hfn : ∀ k, f ≠ s.nF + k := by intro k; omega
+    have hf0 : f ≠ s.nF := by omega
+    have hfz : f ≠ 0 := by omega
+    unfold St.seCore; evw [b_0, b_1, b_2, b_3, b_4, b_5, d_0_1, d_0_1.symm, d_0_2, d_0_2.symm, d_0_3, d_0_3.symm, d_0_4, d_0_4.symm, d_0_5, d_0_5.symm, d_1_2, d_1_2.symm, d_1_3, d_1_3.symm, d_1_4, d_1_4.symm, d_1_5, d_1_5.symm, d_2_3, d_2_3.symm, d_2_4, d_2_4.symm, d_2_5, d_2_5.symm, d_3_4, d_3_4.symm, d_3_5, d_3_5.symm, d_4_5, d_4_5.symm, n_0, (n_0 _).symm, m_0, m_0.symm, u_0, n_1, (n_1 _).symm, m_1, m_1.symm, u_1, n_2, (n_2 _).symm, m_2, m_2.symm, u_2, n_3, (n_3 _).symm, m_3, m_3.symm, u_3, n_4, (n_4 _).symm, m_4, m_4.symm, u_4, n_5, (n_5 _).symm, m_5, m_5.symm, u_5, hfn, hf0, hfz, hF] <;> grind
+  · intro g hg hfg hmem
+    simp only [List.mem_cons, List.not_mem_nil, or_false] at hmem ⊢
+    rcases hmem with hm | hm
+    · have := hs.same_face_cycle hft3 b_0 hg hfe0 hm
+      rw [hen, hep] at this
+      rcases this with h | h | h <;> simp [h]
+    · have := hs.same_face_cycle hft3 b_3 hg hft0 hm
+      rw [htn, htp] at this
+      rcases this with h | h | h <;> simp [h]
+  · intro x hx hc hfx
+    have hx' : x = e0 ∨ x = en ∨ x = ep ∨ x = t0 ∨ x = tn ∨ x = tp ∨ x = s.nE ∨ x = s.nE + 1 ∨ x = s.nE + 2 ∨ x = s.nE + 3 ∨ x = s.nE + 4 ∨ x = s.nE + 5 := by
+      rcases hc with h | h
+      · simp only [List.mem_cons, List.not_mem_nil, or_false] at h <;> omega
+      · omega
+    unfold St.seCore at hfx ⊢
+    unfold EdgeOK dst at *
+    have hq : s.fc e0 ≠ s.fc t0 := by
+      intro h
+      have := hs.same_face_cycle hft3 b_0 b_3 hfe0 h.symm
+      rw [hen, hep] at this
+      rcases this with h' | h' | h'
+      · exact d_0_3 h'.symm
+      · exact d_1_3 h'.symm
+      · exact d_2_3 h'.symm
+    rcases hx' with h | h | h | h | h | h | h | h | h | h | h | h <;> subst h
+    all_goals (revert hfx; evw [b_0, b_1, b_2, b_3, b_4, b_5, d_0_1, d_0_1.symm, d_0_2, d_0_2.symm, d_0_3, d_0_3.symm, d_0_4, d_0_4.symm, d_0_5, d_0_5.symm, d_1_2, d_1_2.symm, d_1_3, d_1_3.symm, d_1_4, d_1_4.symm, d_1_5, d_1_5.symm, d_2_3, d_2_3.symm, d_2_4, d_2_4.symm, d_2_5, d_2_5.symm, d_3_4, d_3_4.symm, d_3_5, d_3_5.symm, d_4_5, d_4_5.symm, n_0, (n_0 _).symm, m_0, m_0.symm, u_0, n_1, (n_1 _).symm, m_1, m_1.symm, u_1, n_2, (n_2 _).symm, m_2, m_2.symm, u_2, n_3, (n_3 _).symm, m_3, m_3.symm, u_3, n_4, (n_4 _).symm, m_4, m_4.symm, u_4, n_5, (n_5 _).symm, m_5, m_5.symm, u_5, hen, hep, ht, htn, htp, a3, a4, a5, a6, c3, c4, c5, c6, rr, fb1, fb2, hq, hq.symm]; intro hfx; grind (splits := 40))
+
+set_option maxHeartbeats 4000000 in
+theorem LInv.seCore_vb {s : St} (hs : LInv s) (hvb : s.VBound) (e0 : Nat) (p : Pt) (d : Nat) (b_0 : e0 < s.nE)
+    (hfe0 : s.fc e0 ≠ 0) (hft0 : s.fc (s.rv e0) ≠ 0) :
+    (St.seCore s e0 (s.nxt e0) (s.prv e0) (s.rv e0) (s.nxt (s.rv e0)) (s.prv (s.rv e0))
+      (s.org e0) (s.org (s.prv (s.rv e0))) (s.org (s.rv e0)) (s.org (s.prv e0)) (s.fc e0) (s.fc (s.rv e0)) p d).VBound := by
+  have ev0 := hs.even
+  have b_3 := hs.rv_lt b_0
+  obtain ⟨b_1, b_2, a3, a4, a5, a6, a7, a8, a9, a10, a11⟩ := hs.tri b_0 hfe0
+  obtain ⟨b_4, b_5, c3, c4, c5, c6, c7, c8, c9, c10, c11⟩ := hs.tri b_3 hft0
+  obtain ⟨x1, x2⟩ := hs.tri_cross b_0 hfe0
+  have rr := hs.rv_rv b_0
+  have rne := hs.rv_ne b_0
+  have E0 := hs.edge e0 b_0
+  have E1 := hs.edge _ b_1
+  have E2 := hs.edge _ b_2
+  have E3 := hs.edge _ b_3
+  have E4 := hs.edge _ b_4
+  have E5 := hs.edge _ b_5
+  have r1 := hs.rv_rv b_1
+  have r2 := hs.rv_rv b_2
+  have r4 := hs.rv_rv b_4
+  have r5 := hs.rv_rv b_5
+  have l1 := hs.rv_lt b_1
+  have l2 := hs.rv_lt b_2
+  have l4 := hs.rv_lt b_4
+  have l5 := hs.rv_lt b_5
+  generalize hen : s.nxt e0 = en at *
+  generalize hep : s.prv e0 = ep at *
+  generalize ht : s.rv e0 = t0 at *
+  generalize htn : s.nxt t0 = tn at *
+  generalize htp : s.prv t0 = tp at *
+  have dd : e0 ≠ en ∧ e0 ≠ ep ∧ e0 ≠ t0 ∧ e0 ≠ tn ∧ e0 ≠ tp ∧ en ≠ ep ∧ en ≠ t0 ∧ en ≠ tn ∧ en ≠ tp ∧
+         ep ≠ t0 ∧ ep ≠ tn ∧ ep ≠ tp ∧ t0 ≠ tn ∧ t0 ≠ tp ∧ tn ≠ tp := by
+    refine ⟨a9, a10, Ne.symm rne, ?_, ?_, a11, Ne.symm x1, ?_, ?_, Ne.symm x2, ?_, ?_, c9, c10, c11⟩
+    all_goals grind
+  obtain ⟨d_0_1, d_0_2, d_0_3, d_0_4, d_0_5, d_1_2, d_1_3, d_1_4, d_1_5, d_2_3, d_2_4, d_2_5, d_3_4, d_3_5, d_4_5⟩ := dd
+  have fb1 : s.fc e0 < s.nF := E0.2.2.2.1
+  have fb2 : s.fc t0 < s.nF := E3.2.2.2.1
+  have n_0 : ∀ k, s.nE + k ≠ e0 := by intro k; omega
+  have m_0 : s.nE ≠ e0 := by omega
+  have u_0 : ∀ k, e0 < s.nE + k := by intro k; omega
+  have n_1 : ∀ k, s.nE + k ≠ en := by intro k; omega
+  have m_1 : s.nE ≠ en := by omega
+  have u_1 : ∀ k, en < s.nE + k := by intro k; omega
+  have n_2 : ∀ k, s.nE + k ≠ ep := by intro k; omega
+  have m_2 : s.nE ≠ ep := by omega
+  have u_2 : ∀ k, ep < s.nE + k := by intro k; omega
+  have n_3 : ∀ k, s.nE + k ≠ t0 := by intro k; omega
+  have m_3 : s.nE ≠ t0 := by omega
+  have u_3 : ∀ k, t0 < s.nE + k := by intro k; omega
+  have n_4 : ∀ k, s.nE + k ≠ tn := by intro k; omega
+  have m_4 : s.nE ≠ tn := by omega
+  have u_4 : ∀ k, tn < s.nE + k := by intro k; omega
+  have n_5 : ∀ k, s.nE + k ≠ tp := by intro k; omega
+  have m_5 : s.nE ≠ tp := by omega
+  have u_5 : ∀ k, tp < s.nE + k := by intro k; omega
+  have szE : (s.seCore e0 en ep t0 tn tp (s.org e0) (s.org tp) (s.org t0) (s.org ep) (s.fc e0) (s.fc t0) p d).nE = s.nE + 6 := by unfold St.seCore; evw [b_0, b_1, b_2, b_3, b_4, b_5, d_0_1, d_0_1.symm, d_0_2, d_0_2.symm, d_0_3, d_0_3.symm, d_0_4, d_0_4.symm, d_0_5, d_0_5.symm, d_1_2, d_1_2.symm, d_1_3, d_1_3.symm, d_1_4, d_1_4.symm, d_1_5, d_1_5.symm, d_2_3, d_2_3.symm, d_2_4, d_2_4.symm, d_2_5, d_2_5.symm, d_3_4, d_3_4.symm, d_3_5, d_3_5.symm, d_4_5, d_4_5.symm, n_0, (n_0 _).symm, m_0, m_0.symm, u_0, n_1, (n_1 _).symm, m_1, m_1.symm, u_1, n_2, (n_2 _).symm, m_2, m_2.symm, u_2, n_3, (n_3 _).symm, m_3, m_3.symm, u_3, n_4, (n_4 _).symm, m_4, m_4.symm, u_4, n_5, (n_5 _).symm, m_5, m_5.symm, u_5]
+  unfold St.seCore at szE ⊢
+  refine vbound_run s _ hvb (s.nE + 6) szE (by omega) ?_
+  intro i hi
+  simp only [List.mem_cons, List.not_mem_nil, or_false] at hi
+  rcases hi with rfl | rfl | rfl | rfl | rfl | rfl | rfl | rfl | rfl | rfl | rfl | rfl | rfl | rfl | rfl | rfl | rfl | rfl | rfl <;> simp only [Instr.argOK] <;> omega
+
 end St
 end Spade
